@@ -2,7 +2,7 @@
    Only statements here; proofs live in Proofs/NodeProtoP.v.  The model (Model/NodeProto.v) is the
    code after fixes/C19_1..6; json.dumps / json.loads are oracles whose laws appear as premises. *)
 From Coq Require Import List NArith ZArith Bool.
-From Circ Require Import Model.NodeProto Proofs.NodeProtoP Proofs.NodeEndToEndP.
+From Circ Require Import Model.NodeProto Proofs.NodeProtoP Proofs.NodeEndToEndP Proofs.NodeHubP.
 Import ListNotations.
 
 (* ---- framing: every cut of the stream of packets into reads yields exactly the packets sent, in
@@ -283,3 +283,66 @@ Example C19_error_returns_ex : forall late cut, In cut [0; 2]%nat ->
   /\ map c_err (a_calls (Ex.final_err late cut)) = [Some (JBool true)]
   /\ map c_val (a_calls (Ex.final_err late cut)) = [JERR].
 Proof. exact Ex.error_returns. Qed.
+
+(* ---- SEVERAL CONNECTIONS on one called side (a Server with several clients, a Node with several peers).
+   Hub model (Model/NodeProto.v, Section Hub): a map connection id -> single-connection state; every step
+   (a send of the connection's caller, a read of either end) is tagged with its connection; [legacy = false] is
+   the code after fix 8ca1bbb, where the <name>_success / <name>_complete notification of a remote event is
+   addressed to the Protocol of the connection the call came from; [legacy = true] is the code before it
+   (notification on the shared channel: every Protocol of the process writes the answer on its connection). *)
+
+(* (1) frame: a step on connection c is the single-connection step on c's state and leaves every other
+   connection - its state, both wires, its dispatch log, its calls - unchanged *)
+Theorem C19_hub_step_own : forall excl dumps loads D fw_send fw_recv handler b_chan n legacy h c o,
+  hstep excl dumps loads D fw_send fw_recv handler b_chan n legacy h (c, o) c
+  = step excl dumps loads D fw_send fw_recv handler (b_chan c) (h c) o.
+Proof. exact hstep_own. Qed.
+Print Assumptions C19_hub_step_own.
+
+Theorem C19_hub_frame : forall excl dumps loads D fw_send fw_recv handler b_chan n h c o c', c' <> c ->
+  hstep excl dumps loads D fw_send fw_recv handler b_chan n false h (c, o) c' = h c'.
+Proof. exact hstep_frame. Qed.
+Print Assumptions C19_hub_frame.
+
+(* (2) routing: for every schedule over any number of connections, the hub seen on connection c IS the
+   single-connection system run on c's own steps - in particular the bytes on c's answer wire, hence every value
+   packet written on c answers a call received on c ... *)
+Theorem C19_hub_independent : forall excl dumps loads D fw_send fw_recv handler b_chan n sched c,
+  hrun excl dumps loads D fw_send fw_recv handler b_chan n false sched c
+  = exec excl dumps loads D fw_send fw_recv handler (b_chan c) (ops_of c sched).
+Proof. exact hub_independent. Qed.
+Print Assumptions C19_hub_independent.
+
+(* ... and C19_end_to_end holds on every connection, whatever ids are in flight on the others: every sender gets
+   the result of its own event *)
+Theorem C19_hub_end_to_end :
+  forall excl dumps loads fw_send fw_recv handler (b_chan : nat -> json) n ser, json_laws dumps loads ser ->
+  forall sched, Forall (fun co => honest_op (snd co)) sched ->
+  forall c,
+  let s := hrun excl dumps loads DELIM fw_send fw_recv handler b_chan n false sched c in
+  let sends := sends_of (ops_of c sched) in
+  wab s = [] -> wba s = [] ->
+  b_log s = flat_map (logof excl fw_recv handler (b_chan c)) (filter fw_send (map fst sends))
+  /\ a_calls s = map (exp1 excl fw_send fw_recv handler (b_chan c)) sends
+  /\ a_buf s = [] /\ b_buf s = [] /\ bad s = false.
+Proof. exact hub_end_to_end. Qed.
+Print Assumptions C19_hub_end_to_end.
+
+(* (3) the behaviour before the fix does NOT have this property: two connections, a call with id 0 in flight on
+   both; the sender on connection c asked for event y and is resumed with the result of event x, the call of the
+   other connection (corpus/C19/result_to_caller_only.json); the same schedule under the fixed hub gives y *)
+Theorem C19_hub_legacy_refuted : exists sched c x y, x <> y
+  /\ sends_of (ops_of c sched) = [(HubEx.ev y, MCall)]
+  /\ HubEx.handler (HubEx.ev y) = HVal (JStr [y])
+  /\ map c_val (a_calls (HubEx.run true 2 sched c)) = [JStr [x]]
+  /\ map c_val (a_calls (HubEx.run false 2 sched c)) = [JStr [y]].
+Proof. exact HubEx.legacy_refuted. Qed.
+Print Assumptions C19_hub_legacy_refuted.
+
+(* three connections, equal ids in flight, deliveries interleaved and cut: every sender gets the own result *)
+Example C19_hub_three_ex : forall c, In c [0; 1; 2]%nat ->
+  map c_val (a_calls (HubEx.run false 3 HubEx.three c)) = [JStr [(97 + N.of_nat c)%N]]
+  /\ map c_fin (a_calls (HubEx.run false 3 HubEx.three c)) = [true]
+  /\ length (b_log (HubEx.run false 3 HubEx.three c)) = 1%nat
+  /\ wab (HubEx.run false 3 HubEx.three c) = [] /\ wba (HubEx.run false 3 HubEx.three c) = [].
+Proof. exact HubEx.fixed_three. Qed.
